@@ -382,6 +382,25 @@ pub struct SimCore {
     pub op_budget: u32,
 }
 
+/// Order-independent digest of every operation log of this process (XOR of per-world log
+/// hashes): two executions of the same batch must print the same value whatever the worker
+/// count or thread scheduling was.
+pub static GLOBAL_LOG_DIGEST: std::sync::atomic::AtomicU64 = std::sync::atomic::AtomicU64::new(0);
+pub static GLOBAL_WORLDS: std::sync::atomic::AtomicU64 = std::sync::atomic::AtomicU64::new(0);
+
+impl Drop for SimCore {
+    fn drop(&mut self) {
+        if let Ok(log) = self.log.lock() {
+            let mut h: u64 = 0x5151;
+            for r in log.iter() {
+                h = rng::mix(&[h, r.stable_hash()]);
+            }
+            GLOBAL_LOG_DIGEST.fetch_xor(h, SeqCst);
+            GLOBAL_WORLDS.fetch_add(1, SeqCst);
+        }
+    }
+}
+
 impl SimCore {
     pub fn new(store: StoreBackend) -> Arc<SimCore> {
         Arc::new(SimCore {
